@@ -32,6 +32,12 @@ type Ledger struct {
 	// CIE holds the chain index elements of this chain by height (only
 	// heights whose element exists in the accumulator).
 	CIE map[uint64]types.ChainIndexElement
+	// Spent holds the state elements (leaf index and proof at this ledger) of
+	// the siacoin and siafund elements this chain created and spent: their
+	// leaves stay in the accumulator with the spent flag (TrackSpent is set by
+	// Genesis).
+	Spent      map[types.Hash256]types.StateElement
+	TrackSpent bool
 	// Expiring lists v1 contract ids by WindowEnd in the order a node that saw
 	// exactly this chain linearly keeps them (append on create, swap-remove on
 	// removal).
@@ -57,6 +63,7 @@ func Genesis(n *consensus.Network, genesis types.Block) *Ledger {
 		FCE: map[types.FileContractID]types.FileContractElement{}, V2FCE: map[types.FileContractID]types.V2FileContractElement{},
 		CIE: map[uint64]types.ChainIndexElement{}, Expiring: map[uint64][]types.FileContractID{}, UsedWindowEnds: map[uint64]bool{},
 		genesisTimestamp: genesis.Timestamp,
+		TrackSpent:       true, Spent: map[types.Hash256]types.StateElement{},
 	}
 	bs := consensus.V1BlockSupplement{Transactions: make([]consensus.V1TransactionSupplement, len(genesis.Transactions))}
 	return pre.applyUnchecked(genesis, bs, time.Time{})
@@ -198,7 +205,15 @@ func (l *Ledger) applyUnchecked(b types.Block, bs consensus.V1BlockSupplement, t
 		V2FCE:    make(map[types.FileContractID]types.V2FileContractElement, len(l.V2FCE)+1),
 		CIE:      make(map[uint64]types.ChainIndexElement, len(l.CIE)+1),
 		Expiring: make(map[uint64][]types.FileContractID, len(l.Expiring)), UsedWindowEnds: make(map[uint64]bool, len(l.UsedWindowEnds)),
-		genesisTimestamp: l.genesisTimestamp,
+		genesisTimestamp: l.genesisTimestamp, TrackSpent: l.TrackSpent,
+	}
+	if l.TrackSpent {
+		c.Spent = make(map[types.Hash256]types.StateElement, len(l.Spent)+2)
+		for id, se := range l.Spent {
+			se = se.Copy()
+			cau.UpdateElementProof(&se)
+			c.Spent[id] = se
+		}
 	}
 	// carry over existing elements with proofs moved to the new accumulator
 	for id, e := range l.SCE {
@@ -236,7 +251,13 @@ func (l *Ledger) applyUnchecked(b types.Block, bs consensus.V1BlockSupplement, t
 	for _, d := range cau.SiacoinElementDiffs() {
 		switch {
 		case d.Created && d.Spent:
+			if c.TrackSpent {
+				c.Spent[types.Hash256(d.SiacoinElement.ID)] = d.SiacoinElement.StateElement.Copy()
+			}
 		case d.Spent:
+			if e, ok := c.SCE[d.SiacoinElement.ID]; ok && c.TrackSpent {
+				c.Spent[types.Hash256(d.SiacoinElement.ID)] = e.StateElement.Copy()
+			}
 			delete(c.SCE, d.SiacoinElement.ID)
 		default:
 			c.SCE[d.SiacoinElement.ID] = copySCE(d.SiacoinElement)
@@ -245,7 +266,13 @@ func (l *Ledger) applyUnchecked(b types.Block, bs consensus.V1BlockSupplement, t
 	for _, d := range cau.SiafundElementDiffs() {
 		switch {
 		case d.Created && d.Spent:
+			if c.TrackSpent {
+				c.Spent[types.Hash256(d.SiafundElement.ID)] = d.SiafundElement.StateElement.Copy()
+			}
 		case d.Spent:
+			if e, ok := c.SFE[d.SiafundElement.ID]; ok && c.TrackSpent {
+				c.Spent[types.Hash256(d.SiafundElement.ID)] = e.StateElement.Copy()
+			}
 			delete(c.SFE, d.SiafundElement.ID)
 		default:
 			c.SFE[d.SiafundElement.ID] = copySFE(d.SiafundElement)
